@@ -261,6 +261,55 @@ fn accounting(ms: &ModuleSet, c: &Compiled, tainted: &BTreeSet<String>) -> Optio
     None
 }
 
+/// the same accounting for the TypeScript backend: every assignment is declared under its JER
+/// name (`export type|const|enum <name>`), or a warning names it, or an unnamed warning is
+/// left over for it
+fn accounting_ts(ms: &ModuleSet, ts: &str, warnings: &[String]) -> Option<(String, String)> {
+    let all_names: Vec<String> = ms.modules.iter().flat_map(|m| m.items.iter().map(|i| i.name().to_string())).collect();
+    let mut anonymous = warnings.iter().filter(|w| !all_names.iter().any(|n| names_word(w, n))).count();
+    let declared = |jer: &str| -> bool {
+        ["export type ", "export const ", "export enum "].iter().any(|kw| {
+            let pat = format!("{kw}{jer}");
+            let mut start = 0;
+            while let Some(p) = ts[start..].find(&pat) {
+                let b = start + p + pat.len();
+                if ts[b..].chars().next().map_or(true, |c| !(c.is_alphanumeric() || c == '_')) {
+                    return true;
+                }
+                start = b;
+            }
+            false
+        })
+    };
+    let mut open: Vec<(String, String)> = vec![];
+    for m in &ms.modules {
+        for it in &m.items {
+            let name = it.name();
+            let jer = name.replace('-', "_");
+            if declared(&jer) || warnings.iter().any(|w| names_word(w, name)) {
+                continue;
+            }
+            let kind = match it {
+                Item::Raw { kind, .. } => kind.clone(),
+                Item::Type { .. } => "type".into(),
+                Item::Value { .. } => "value".into(),
+            };
+            open.push((
+                kind,
+                format!("`{}` of module {} has no TypeScript declaration `{jer}` and no warning mentions it (warnings: {:?})", print_item(it), m.name, warnings.iter().take(4).collect::<Vec<_>>()),
+            ));
+        }
+    }
+    // unnamed warnings are handed to the other definitions first: a RELATIVE-OID value is
+    // known to vanish without one (F-roid-val)
+    open.sort_by_key(|(k, _)| (k == "reloid-value") as u8);
+    let n = anonymous.min(open.len());
+    open.drain(..n);
+    anonymous -= n;
+    let _ = anonymous;
+    open.into_iter().next()
+}
+
 fn owner<'a>(item_name: &str, is_fn: bool, owners: &'a [(String, String)]) -> Option<&'a str> {
     // owners: (rust type name, asn name)
     for (rust, asn) in owners {
@@ -481,6 +530,17 @@ pub fn eval(ms: &ModuleSet, stream_salt: u64) -> Verdict {
                 format!("unaccounted definition after replacement: {d}"),
                 json!({"variant": print(&var), "detail": d}),
             ));
+        }
+        // the TypeScript backend over the same variant (an Err is a reported rejection)
+        if let Outcome::Ok(tc) = comp::compile_ts(&[print(&var)]) {
+            if let Some((kind, d)) = accounting_ts(&var, &tc.generated, &tc.warnings) {
+                failures.push((
+                    format!("accounting-ts:{kind}"),
+                    if kind == "reloid-value" { Some("F-roid-val") } else { None },
+                    format!("unaccounted definition after replacement (TypeScript backend): {d}"),
+                    json!({"variant": print(&var), "detail": d, "backend": "typescript"}),
+                ));
+            }
         }
         if let Some(d) = locality(ms, &base, &vc, &tainted) {
             failures.push((
